@@ -19,7 +19,7 @@ meta = {
   "origin": ("independent sub-agent given only the property text and a scratch worktree of the current tree (hooks and fix: commits included)" if R2 else "independent sub-agent given only the property text and a scratch worktree of the pinned base commit bbf5222"),
   "needs_to_manifest": needs,
   "confirmed": conf[-1] if conf else "NOT CONFIRMED",
-  "what_i_ran": "tools/confirm_mutant.sh (scratch worktree of " + ("HEAD" if R2 else "bbf5222") + ": demo.diff alone -> cargo nextest all pass; demo.diff + patch.diff -> the 81 existing tests pass and only the demo tests fail), then tools/try_mutant.sh <patch> quick <checks> against /repo (git apply, run, git checkout)",
+  "what_i_ran": "tools/confirm_mutant.sh (scratch worktree of " + ("HEAD" if R2 else "bbf5222") + ": demo.diff alone -> cargo nextest all pass; demo.diff + patch.diff -> the 81 existing tests pass and only the demo tests fail), then " + ("tools/trial.sh <patch> quick <checks> (the change applied to a scratch worktree of /repo's HEAD, the checks run from a copy of /verif's harness pointed at that worktree; /repo itself untouched)" if RND == "4" else "tools/try_mutant.sh <patch> quick <checks> against /repo (git apply, run, git checkout)"),
   "apply_to_current_tree": "patch.rebased.diff" if os.path.exists(f"{src}/patch.rebased.diff") else "patch.diff",
   "detected_by": {},
 }
